@@ -532,6 +532,35 @@ var c06Families = []c06Family{
 		ctx.Cell("entry:Tofu.Render")
 		return fw.Result{Verdict: fw.Held}
 	}},
+	{"extreme-range", func(tier string) int { return len(c06ExtremeRanges) * 3 }, func(ctx *fw.Ctx, k int) fw.Result {
+		// range() at the ends of the integer range: every one of these lists has at most a dozen elements, and
+		// computing it must not run away when start + step leaves the integers
+		call := c06ExtremeRanges[k%len(c06ExtremeRanges)]
+		ctx.Cell("fn:range-extreme")
+		armRenderBudget()
+		switch k / len(c06ExtremeRanges) {
+		case 0:
+			files := []srcFile{{"r.soy", "{namespace r}\n/** */\n{template .t}\n{length(" + call + ")}{foreach $i in " + call + "}{$i},{/foreach}\n{/template}\n"}}
+			totalRender(ctx, files, nil, "r.t", nil, nil, false)
+		case 1:
+			if node, err := parse.Expr("length(" + call + ")"); err == nil {
+				ctx.Cell("entry:EvalExpr")
+				if _, err := soyhtml.EvalExpr(node); err != nil {
+					ctx.Obs("evalexpr_errors", 1)
+				} else {
+					ctx.Obs("evalexpr_ok", 1)
+				}
+			}
+		default:
+			if _, err := soy.ParseGlobals(strings.NewReader("N = length(" + call + ")\n")); err != nil {
+				ctx.Obs("globals_errors", 1)
+			} else {
+				ctx.Obs("globals_ok", 1)
+			}
+		}
+		ctx.Eval("extreme-range:" + call + fmt.Sprint(k/len(c06ExtremeRanges)))
+		return fw.Result{Verdict: fw.Held}
+	}},
 	{"api-misuse", func(tier string) int { return 13 * 18 }, func(ctx *fw.Ctx, k int) fw.Result {
 		tofu, err := compile([]srcFile{{"m.soy", "{namespace m}\n/** @param? x */\n{template .t}{$x ?: 'd'}{/template}\n/** */\n{template .b}b{/template}\n/** */\n{template .k}{call .b/}{/template}\n"}}, nil)
 		if err != nil {
@@ -556,6 +585,16 @@ var c06Families = []c06Family{
 		_ = (&soyhtml.Renderer{}).Execute(&buf, nil)
 		return fw.Result{Verdict: fw.Held}
 	}},
+}
+
+const c06MaxInt, c06MinInt = "9223372036854775807", "(-9223372036854775807 - 1)"
+
+var c06ExtremeRanges = []string{
+	"range(1, " + c06MaxInt + ", " + c06MaxInt + ")", "range(9223372036854775806, " + c06MaxInt + ", 2)", "range(9223372036854775800, " + c06MaxInt + ")",
+	"range(9223372036854775797, " + c06MaxInt + ", 3)", "range(0, " + c06MaxInt + ", 9223372036854775806)", "range(0, " + c06MaxInt + ", 4611686018427387904)",
+	"range(" + c06MinInt + ", -9223372036854775800)", "range(" + c06MinInt + ", " + c06MaxInt + ", " + c06MaxInt + ")", "range(-9223372036854775807, 9223372036854775806, 4611686018427387904)",
+	"range(" + c06MaxInt + ", " + c06MaxInt + ")", "range(" + c06MaxInt + ", " + c06MinInt + ")", "range(-3, " + c06MaxInt + ", 9223372036854775806)",
+	"range(4611686018427387904, " + c06MaxInt + ", 4611686018427387904)", "range(9007199254740990, 9007199254740993)", "range(9223372036854775806, " + c06MaxInt + ", " + c06MaxInt + ")",
 }
 
 var c06Config string
